@@ -159,7 +159,7 @@ class RdmsOps:
             return False
         i = o['a'][0] % src.obj.n_rdm
         try:
-            res = src.obj[i]
+            res = src.obj[i - src.obj.n_rdm if o['flag'] else (np.int64(i) if o['flag2'] else i)]      # also counted from the end
         except Exception as e:
             return self._raise('getitem_int', e)
         sem = None if src.sem is None else {**src.sem, 'ru': [src.sem['ru'][i]], 'cu': list(src.sem['cu'])}
@@ -171,7 +171,7 @@ class RdmsOps:
             return False
         n = src.obj.n_rdm
         idx = [a % n for a in o['a'][:1 + o['u'] % 4]]
-        arg = np.array(idx) if o['flag'] else idx
+        arg = np.array(idx) if o['flag'] else (tuple(idx) if o['flag2'] and len(idx) > 1 else idx)
         try:
             res = src.obj[arg]
         except Exception as e:
@@ -514,12 +514,24 @@ class RdmsOps:
                 part.descriptors = od
             parts.append(part)
         exp_od = self._expected_odesc(parts)
+        kw = {}
+        if o['a'][2] % 3 == 0:
+            # the full list of patterns given explicitly: the union in another order, sometimes with a condition that no
+            # partial holds (all its pairs are then missing)
+            union = []
+            for part in parts:
+                union += [c for c in normlist(part.pattern_descriptors['uid']) if c not in union]
+            spare = [c for c in self.pool.tables[1] if c not in union]
+            if spare and o['a'][2] % 2 == 0:
+                union.append(spare[o['a'][3] % len(spare)])
+            r.shuffle(union)
+            kw['all_patterns'] = union
         try:
-            res = from_partials(parts, descriptor='uid')
+            res = from_partials(parts, descriptor='uid', **kw)
         except Exception as e:
             return self._raise('from_partials', e)
         self._check_odesc(res, exp_od, 'from_partials')
-        ru, order, present = [], [], set()
+        ru, order, present = [], list(kw.get('all_patterns', [])), set()
         for part in parts:
             pr, pc = normlist(part.rdm_descriptors['uid']), normlist(part.pattern_descriptors['uid'])
             for c in pc:
@@ -551,7 +563,7 @@ class RdmsOps:
         self.pool.check_rdms(s, 'from_partials')
         # documented loss: only the chosen pattern descriptor survives from_partials (known finding if judged)
         self.pool.sweep('from_partials', args=[src.sid], produced=[s.sid])
-        self.ctx.behaviour('from_partials', len(parts), o['flag'])
+        self.ctx.behaviour('from_partials', len(parts), o['flag'], bool(kw))
 
     def op_concat(self, o):
         from rsatoolbox.rdm import concat
